@@ -1,4 +1,5 @@
 import gfapy
+import builtins
 import re
 
 def unsafe_decode(string):
@@ -13,9 +14,17 @@ def decode(string):
   validate_encoded(string)
   return unsafe_decode(string)
 
-def validate_decoded(integer):
-  pass
-  # always valid
+def validate_decoded(obj):
+  if isinstance(obj, int) or isinstance(obj, float):
+    # (inf and nan cannot be represented in a GFA float field)
+    if obj != obj or obj in [builtins.float("inf"), builtins.float("-inf")]:
+      raise gfapy.ValueError(
+        "{} is not a finite number".format(repr(obj)))
+  else:
+    raise gfapy.TypeError(
+      "the class {} is incompatible with the datatype\n"
+      .format(obj.__class__.__name__)+
+      "(accepted classes: int, float)")
 
 def validate_encoded(string):
   if not re.match(r"^[-+]?[0-9]*\.?[0-9]+([eE][-+]?[0-9]+)?\Z", string):
@@ -32,6 +41,7 @@ def encode(obj):
     validate_encoded(obj)
     return obj
   elif isinstance(obj, int) or isinstance(obj, float):
+    validate_decoded(obj)
     return str(obj)
   else:
     raise gfapy.TypeError(
